@@ -146,7 +146,7 @@ SumIds(S) == IF S = {} THEN 0
 NoClient  == [known |-> FALSE, useOwn |-> FALSE, filt |-> TRUE, svc |-> "inherit"]
 BaseCfg(rs, mode) ==
     [rules |-> rs, mode |-> mode, prot |-> "on", filt |-> TRUE, svc |-> "none",
-     client |-> NoClient, aaaaOff |-> FALSE, cache |-> FALSE]
+     client |-> NoClient, aaaaOff |-> FALSE, cache |-> FALSE, cust |-> 1]
 
 \* Stratum R: every rule set of size <= 2 (and the ladders), everything else
 \* at its default; c1 is a persistent client (without own settings) in half
@@ -164,7 +164,14 @@ FlagSum(c) ==
     + (IF c.client.known THEN 1 ELSE 0) + (IF c.client.useOwn THEN 2 ELSE 0) + (IF c.client.filt THEN 0 ELSE 1)
     + (CASE c.client.svc = "inherit" -> 0 [] c.client.svc = "none" -> 1 [] c.client.svc = "active" -> 2 [] OTHER -> 3)
     + (IF c.aaaaOff THEN 1 ELSE 0)
-FixMode(c) == IF c.mode = "rot" THEN [c EXCEPT !.mode = ModeSeq[((SumIds(c.rules) + FlagSum(c)) % 5) + 1]] ELSE c
+\* The rotating mode, and which of the two pairs of custom addresses is
+\* configured (independent of the mode: consecutive configurations of a walk
+\* with the same mode custom_ip and different addresses occur).
+FixMode(c) ==
+    LET sum == SumIds(c.rules) + FlagSum(c)
+        cu  == ((sum \div 5) % 2) + 1
+    IN IF c.mode = "rot" THEN [c EXCEPT !.mode = ModeSeq[(sum % 5) + 1], !.cust = cu]
+       ELSE [c EXCEPT !.cust = (sum % 2) + 1]
 RuleSetsOf(U, k) ==      \* the sets {r1} and {r1, r2}, r1 = the rule of U with key k, r2 not before it
     LET r1 == CHOOSE r \in U : RKey(r) = k
     IN {x \in {{r1, r2} : r2 \in {y \in U : RKey(y) >= k}} : ~Ambiguous(x)}
@@ -201,7 +208,7 @@ ClientRecs ==
         u \in BOOLEAN, f \in BOOLEAN, s \in {"inherit", "none", "active", "paused"}}
 StratumFB(fi) ==
     {[rules |-> rs, mode |-> m, prot |-> pr, filt |-> f, svc |-> s, client |-> c, aaaaOff |-> FALSE,
-      cache |-> FALSE] :
+      cache |-> FALSE, cust |-> 1] :
         rs \in {FlagRuleSets[fi]}, m \in GenModes,
         pr \in {"on", "off", "paused", "expired"}, f \in BOOLEAN,
         s \in {"none", "active", "paused"},
@@ -300,7 +307,7 @@ FlagRuleSets02 ==
        {Placed(CHOOSE r \in Family02 : r.id = 108, "custom"), Placed(CHOOSE r \in Family02 : r.id = 101, "block")} >>
 MkCfg02(rs, m, fl) ==
     [rules |-> rs, mode |-> m, prot |-> fl[1], filt |-> fl[2], svc |-> "none", client |-> fl[3],
-     aaaaOff |-> fl[4], cache |-> fl[5]]
+     aaaaOff |-> fl[4], cache |-> fl[5], cust |-> 1]
 MkR02(rs, m) ==
     MkCfg02(rs, m, <<"on", TRUE, NoClient, SumIds(rs) % 3 = 0, SumIds(rs) % 4 = 1>>)
 Buckets02 == {<<"R", RKey(r)>> : r \in Placed02} \cup {<<"L", 0>>} \cup {<<"F", i>> : i \in 1..4}
@@ -382,11 +389,15 @@ SpecMC == Init /\ [][NextMC]_vars
 \* questions.  Boot installs a configuration; Ask sends a question (Repeat: one
 \* that this server has been asked before -- with the cache on it may be
 \* served from the cache); Reconfigure replaces the rule lists by those of ANY
-\* other configuration (rules added, removed, lists switched off, down to the
-\* empty allow set and back) and installs exactly them; Finish returns to
+\* other configuration (rules added, removed, lists switched off and on again
+\* -- two Reconfigure steps --, down to the empty allow set and back; another
+\* blocking mode, or the same mode custom_ip with other addresses) and
+\* installs exactly them; Finish returns to
 \* the ready state.  Bounds: 2 reconfigurations, 2 questions.
 HRules == {ById(2, "allow"), ById(1, "block"), Placed(CHOOSE r \in Family02 : r.id = 101, "custom")}
-HConfigs(z) == {[BaseCfg(rs, "default") EXCEPT !.cache = ch] : rs \in SUBSET HRules, ch \in BOOLEAN}
+HConfigs(z) == {[BaseCfg(rs, mc[1]) EXCEPT !.cache = ch, !.cust = mc[2]] :
+                   rs \in SUBSET HRules, ch \in BOOLEAN,
+                   mc \in {<<"default", 1>>, <<"custom_ip", 1>>, <<"custom_ip", 2>>}}
 HAsks(z) == {[req |-> Queries[2], ans |-> Harmless], [req |-> Queries[11], ans |-> Harmless],
           [req |-> Queries[26], ans |-> Harmless],
           [req |-> Req02N(QCOM, "A"), ans |-> AnsOfP(<<3, 1>>, 2)],       \* A i1 owned by b.com, then CNAME b.com
